@@ -24,6 +24,7 @@ RULE = (
     "notification-free steps), Streamable HTTP with SSE bodies, legacy SSE (202 + events) - in two passes: A raw requests with str/int ids, comparing the read-stream transcript with the "
     "script-derived one; B the typed send_* helpers, comparing each helper's normalised outcome (validated result dump / exception class + code); non-trivial = a notification before a response, "
     "non-ASCII text, an error reply or an int id; distinct = distinct (conversation, pass)"
+    "; round 8: error replies carrying a data member of every JSON type; keep-alive comments and data-less typed events between messages"
     "; added in rounds 6-7 of the seeded changes: per-step spelling of JSON and events (compact, no space, untyped, CRLF, sorted, escaped); legacy server answering in the POST reply; 1e400 / escaped lone surrogates"
 )
 ASSUMPTIONS = [
@@ -49,6 +50,9 @@ PERMANENT = frozenset([-32700, -32600, -32601, -32602, -32000, -32003, -32005, -
 EXOTIC: Dict[str, Any] = {"bigexp": float("inf"), "lone-surrogate": "r\udce9sum\udce9.txt", "negexp": float("-inf")}
 
 
+EDATA: List[Any] = [{"details": "d", "n": [None]}, "file:///x", [1, "two", None], 30, None, True, {}, "", 0, 1.5]
+
+
 def reply_for(step: Dict[str, Any], req: Dict[str, Any]) -> List[Dict[str, Any]]:
     msgs: List[Dict[str, Any]] = []
     for i in range(step.get("notifs", 0)):
@@ -58,7 +62,10 @@ def reply_for(step: Dict[str, Any], req: Dict[str, Any]) -> List[Dict[str, Any]]
         # the "could not tell which request" class of replies (parse error / invalid request): id is null
         msgs.append({"jsonrpc": "2.0", "id": None, "error": {"code": step["code"], "message": "srv " + step.get("text", "")}})
     elif step["reply"] == "error":
-        msgs.append({"jsonrpc": "2.0", "id": rid, "error": {"code": step["code"], "message": "srv " + step.get("text", "")}})
+        err: Dict[str, Any] = {"code": step["code"], "message": "srv " + step.get("text", "")}
+        if "edata" in step:
+            err["data"] = EDATA[step["edata"] % len(EDATA)]  # JSON-RPC: the optional data member is any JSON value
+        msgs.append({"jsonrpc": "2.0", "id": rid, "error": err})
     else:
         res = valid_result_for(step["op"]) or {}
         res = dict(res)
@@ -137,7 +144,10 @@ def run_carrier(carrier: str, steps: List[Dict[str, Any]], client_fn: Callable) 
         eol = "\r\n" if sp.get("crlf") else "\n"
         colon = ":" if (sp.get("nospace") and not legacy) else ": "
         head = "" if sp.get("untyped") else f"event{colon}message{eol}"
-        return f"{head}data{colon}{dumps(m)}{eol}{eol}"
+        # keep-alives between messages: a comment and an event that has a type but no data (never dispatched; the type does
+        # not carry over to the next event)
+        ka = f":{' keep-alive' }{eol}{eol}event{colon}ping{eol}{eol}" if sp.get("keepalive") else ""
+        return f"{ka}{head}data{colon}{dumps(m)}{eol}{eol}"
 
     def next_reply(req: Dict[str, Any]) -> Optional[List[Dict[str, Any]]]:
         if not (isinstance(req, dict) and "method" in req and req.get("id") is not None):
@@ -253,7 +263,7 @@ def check(case: Dict[str, Any]) -> Outcome:
         carriers = [c for c in carriers if c != "sse"]
     nonascii = any(any(ord(ch) > 0x7E for ch in json.dumps([s.get("text", ""), s.get("payload", {})], ensure_ascii=False)) for s in steps)
     out.nontrivial = any(s.get("notifs", 0) for s in steps) or nonascii or any(s["reply"] != "result" for s in steps) or any(s.get("cuts") for s in steps) or any(isinstance(s.get("id"), int) for s in steps)
-    out.classes = (f"pass:{mode}", f"steps:{len(steps)}", f"carriers:{len(carriers)}") + (("notifs",) if any(s.get("notifs", 0) for s in steps) else ()) + (("errors",) if any(s["reply"] == "error" for s in steps) else ()) + (("null-id-error",) if any(s["reply"] == "error-null-id" for s in steps) else ()) + (("segmented",) if any(s.get("cuts") for s in steps) else ()) + (("falsy-id",) if any(s.get("id") in (0, "") and not isinstance(s.get("id"), bool) for s in steps) else ()) + tuple(sorted({"spelling:" + k_ for s in steps for k_ in s.get("spell", {})})) + tuple(sorted({"json-value:" + s["exotic"] for s in steps if s.get("exotic")})) + (("legacy-sse-answers-in-the-post-reply",) if any(s.get("sse_order") == "200-reply" for s in steps) else ())
+    out.classes = (f"pass:{mode}", f"steps:{len(steps)}", f"carriers:{len(carriers)}") + (("notifs",) if any(s.get("notifs", 0) for s in steps) else ()) + (("errors",) if any(s["reply"] == "error" for s in steps) else ()) + (("error-with-data",) if any("edata" in s for s in steps) else ()) + (("null-id-error",) if any(s["reply"] == "error-null-id" for s in steps) else ()) + (("segmented",) if any(s.get("cuts") for s in steps) else ()) + (("falsy-id",) if any(s.get("id") in (0, "") and not isinstance(s.get("id"), bool) for s in steps) else ()) + tuple(sorted({"spelling:" + k_ for s in steps for k_ in s.get("spell", {})})) + tuple(sorted({"json-value:" + s["exotic"] for s in steps if s.get("exotic")})) + (("legacy-sse-answers-in-the-post-reply",) if any(s.get("sse_order") == "200-reply" for s in steps) else ())
 
     if mode == "A":
         reqs = [{"jsonrpc": "2.0", "id": s["id"], "method": s["op"], "params": {"p": s.get("text", "")}} for s in steps]
@@ -418,6 +428,8 @@ def cases(draw, mode: str):
         if r_ <= 2:
             s["reply"] = "error"
             s["code"] = draw(st.sampled_from(CODES))
+            if draw(st.booleans()):
+                s["edata"] = draw(st.integers(0, len(EDATA) - 1))
         elif r_ == 3:
             s["reply"] = "error-null-id"
             s["code"] = draw(st.sampled_from([-32700, -32600]))
@@ -432,7 +444,7 @@ def cases(draw, mode: str):
         if s["sse_order"] == "200-reply" and s["notifs"] > 3:
             s["notifs"] = 3
         if draw(st.integers(0, 2)) == 0:
-            s["spell"] = {k_: True for k_ in draw(st.lists(st.sampled_from(["compact", "nospace", "untyped", "crlf", "sorted", "ascii"]), max_size=3, unique=True))}
+            s["spell"] = {k_: True for k_ in draw(st.lists(st.sampled_from(["compact", "nospace", "untyped", "crlf", "sorted", "ascii", "keepalive"]), max_size=3, unique=True))}
         if s["reply"] == "result" and draw(st.integers(0, 5)) == 0:
             s["exotic"] = draw(st.sampled_from(sorted(EXOTIC)))
         if mode == "A":
@@ -508,6 +520,19 @@ def job_spellings(col: Collector, seed: int, tier: str) -> None:
                          {"op": "ping", "notifs": 0, "text": "", "payload": {}, "reply": "result", "sse_order": "202-first", "id": 2}]
                 case = {"steps": steps, "pass": "A"}
                 col.record(case, check(case))
+    for mode in ("A", "B"):
+        for order in ("202-first", "event-first", "200-reply"):
+            for combo in (("keepalive",), ("keepalive", "untyped"), ("keepalive", "untyped", "crlf"), ("keepalive", "nospace", "untyped")):
+                steps = [{"op": "tools/call", "notifs": 2, "text": text, "payload": {}, "reply": "result", "sse_order": order, "spell": {k_: True for k_ in combo}},
+                         {"op": "ping", "notifs": 1, "text": "", "payload": {}, "reply": "error", "code": -32001, "sse_order": order, "spell": {k_: True for k_ in combo}}]
+                case = {"steps": [dict(s_, id=f"k{j_}") if mode == "A" else s_ for j_, s_ in enumerate(steps)], "pass": mode}
+                col.record(case, check(case))
+            for ed in range(len(EDATA)):
+                steps = [{"op": "tools/call", "notifs": ed % 2, "text": "t", "payload": {}, "reply": "error", "code": [-32001, -32602, -32000][ed % 3], "edata": ed, "sse_order": order},
+                         {"op": "ping", "notifs": 0, "text": "", "payload": {}, "reply": "result", "sse_order": "202-first"}]
+                case = {"steps": [dict(s_, id=f"e{j_}") if mode == "A" else s_ for j_, s_ in enumerate(steps)], "pass": mode}
+                col.record(case, check(case))
+    col.exhaustive_parts.append("error replies whose data member is each of 10 JSON values x 3 placements x both passes; keep-alive comments and data-less typed events before every message x 4 spellings x 3 placements")
     col.exhaustive_parts.append("64 spelling combinations x 3 placements of the legacy server's answer x both passes; 3 valid-but-unusual JSON values (1e400, -1e400, escaped lone surrogates) x 2 placements x 3 spellings")
 
 
